@@ -16,7 +16,10 @@ MANIFEST = dict(
          "are unique and increasing under the hypothesis that every block-opening write is committed (refuted without "
          "it).  Tied to the code by running the REAL SimpleSequence, SeqGroup, SequenceManager::do_next_id, a started "
          "SequenceDbManager (snapshot through SnapshotWriterActor/SnapshotReader) and started ConfigActors against the "
-         "model, plus an independent python oracle over multi-node histories.",
+         "model, plus an independent python oracle over multi-node histories.  The issuer as the config actor drives it "
+         "(publish = next_state, import = next_section, arriving marks = set_valid_last_id): for every such history the "
+         "ids increase, lie at or below the highest replicated mark, and a node rebuilt from the marks continues above "
+         "them (issuer_ids_increase_and_covered); marks-only histories on the real struct are judged by that property.",
     note="u64 overflow is excluded (ids < 2^63).  The asynchronous glue of SequenceManager (raft round trip, "
          "handle_result) is scripted by the harness around the real do_next_id / SeqGroup / SequenceDbManager. "
          "Raft's commit/apply order is the model's premise; a leader is assumed to have applied the whole log before it "
